@@ -32,7 +32,7 @@ def run_case(case, backend="main"):
     from simpleline.event_loop import event_queue as EQ
     from simpleline.event_loop.signals import ExceptionSignal
 
-    fuel, bodies, actions = case
+    fuel, bodies, actions = case[:3]
     log = []
     st = dict(nsig=0, nq=0, lastget=None, loop=None)
     ext = []                    # pending external submissions (cls, prio, src)
@@ -196,13 +196,24 @@ def run_case(case, backend="main"):
             log.append([16])
             super().kill_app_with_traceback(exception_signal, data)
 
-    def do_cmds(cmds, hid, count):
+    def do_cmds(cmds, hid, count, current=None):
         loop = st["loop"]
         for c in cmds:
             op = c[0]
+            if op == 13:
+                # re-arm: the handler enqueues the very signal OBJECT it is handling.  For the model (and for the
+                # property) that is one more signal of the same class, priority and source: it gets a fresh id here
+                sid_of.pop(id(current), None)
+                register(current)
+                loop.enqueue_signal(current)
+                continue
             if op == 0:
                 loop.enqueue_signal(new_signal(c[1], c[2], c[3][0] if c[3] else None))
             elif op == 1:
+                # an ordinary exception: alternately a plain one and one of the library's own (not ExitMainLoop)
+                if (hid or 0) % 2:
+                    from simpleline.render.screen_stack import ScreenStackEmptyException
+                    raise ScreenStackEmptyException("scripted")
                 raise RuntimeError("scripted")
             elif op == 2:
                 raise ExitMainLoop()
@@ -221,7 +232,7 @@ def run_case(case, backend="main"):
                 loop.register_signal_handler(cls_of(c[1]), handler_for(c[2]), c[3])
                 log.append([21, c[1], c[2], c[3]])
             elif op == 9:
-                do_cmds(c[2] if count < c[1] else c[3], hid, count)
+                do_cmds(c[2] if count < c[1] else c[3], hid, count, current)
             elif op == 10:
                 log.append([18, c[1]])
             elif op == 11:
@@ -247,7 +258,7 @@ def run_case(case, backend="main"):
             if st["steps"] > STEP_LIMIT:
                 raise StepLimit()
             try:
-                do_cmds(bodies[hid] if hid < len(bodies) else [], hid, count)
+                do_cmds(bodies[hid] if hid < len(bodies) else [], hid, count, signal)
             except (WouldBlock, StepLimit):
                 raise
             except ExitMainLoop:
